@@ -37,7 +37,9 @@ def main():
     # (ii) broker rejection
     s2, t2, sm2, e2 = sched.run_passes(rep, build_broker(), [
         {"harness": "c06-broker", "cfg": {"presumed": "4" if tier == "quick" else "10"}, "budget_s": 40 if tier == "quick" else 300,
-         "label": "(ii) broker: allowed pattern (10) x proxy pattern (10) x field present/absent x presumed pattern (%s): poll answered 'incorrect relay pattern' iff the effective pattern is not a superset (independent reference), never registered, a client arriving next is refused" % ("4" if tier == "quick" else "10")}], 60 if tier == "quick" else 320)
+         "label": "(ii) broker: allowed pattern (10) x proxy pattern (10) x field present/absent x presumed pattern (%s): poll answered 'incorrect relay pattern' iff the effective pattern is not a superset (independent reference), never registered, a client arriving next is refused" % ("4" if tier == "quick" else "10")},
+        {"harness": "c06-broker", "cfg": {"presumed": "4" if tier == "quick" else "10", "prior": "5"}, "budget_s": 40 if tier == "quick" else 300,
+         "label": "after an earlier poll on the same broker {none, explicit empty pattern, the allowed pattern, legacy, the same pattern explicit}: (ii) broker: allowed pattern (10) x proxy pattern (10) x field present/absent x presumed pattern (%s): poll answered 'incorrect relay pattern' iff the effective pattern is not a superset (independent reference), never registered, a client arriving next is refused" % ("4" if tier == "quick" else "10")}], 100 if tier == "quick" else 640)
     # (iii) proxy side
     s3, t3, sm3, e3 = sched.run_passes(rep, proxy_common.build(), [
         {"harness": "c06-proxy", "budget_s": 60 if tier == "quick" else 300,
